@@ -143,6 +143,13 @@ def declare(reg):
     reg.classes['NullText'] = {'isa': ['NullText']}
     reg.classes['NullCursor'] = {'isa': ['NullCursor']}
     reg.classes['TextLines'] = {'mro': ['tatsu/input/textlines.py:TextLines'], 'fields': {}, 'isa': ['Text', 'TextLines']}
+    # a configuration object seen as its attribute table (C09/C10 layering): dkeys = attribute names, dvals = values;
+    # cvals = the values its constructor was called with (ghost: what dataclasses.replace passes to __init__, before
+    # __post_init__ normalises them)
+    reg.classes['CfgD'] = {'mro': ['tatsu/config.py:ParserConfig', 'tatsu/util/configs.py:Config'],
+                           'fields': {'dkeys': 'strset', 'dvals': 'strmap', 'cvals': 'strmap'},
+                           'isa': ['Config', 'ParserConfig', 'ConfigR'], 'attrview': True,
+                           'wf': ["self.dkeys['grammar']", "self.dkeys['name']"]}  # fields of every ParserConfig
     reg.classes['ConfigR'] = {'mro': ['tatsu/config.py:ParserConfig', 'tatsu/util/configs.py:Config'], 'isa': ['ParserConfig', 'Config']}
     reg.classes['RuleInfoR'] = {'mro': ['tatsu/contexts/infos.py:RuleInfo'], 'isa': ['RuleInfo']}
     reg.classes['MemoKeyR'] = {'mro': ['tatsu/contexts/infos.py:MemoKey'], 'isa': ['MemoKey']}
